@@ -12,14 +12,19 @@ Open Scope N_scope.
 
 Definition fnv_off : N := 14695981039346656037.
 Definition fnv_prime : N := 1099511628211.
-(* hash/fnv New64a: xor the byte, then multiply *)
-Definition fnv1a (b : bytes) : N := fold_left (fun h x => w64 (N.lxor h x * fnv_prime)) b fnv_off.
+(* hash/fnv New64a: xor the byte, then multiply (the prime is the left factor only because
+   binary multiplication recurses on it and it has seven 1 bits) *)
+Definition fnv_step (h x : N) : N := w64 (fnv_prime * N.lxor h x).
+Definition fnv_from (h : N) (b : bytes) : N := fold_left fnv_step b h.
+Definition fnv1a (b : bytes) : N := fnv_from fnv_off b.
 
 (* size in bits, number of hash functions, expected elements, insertions, bit array *)
 Record bloom := mkBl { bl_size : N; bl_k : N; bl_n : N; bl_ins : N; bl_bits : bytes }.
 
-(* BloomFilter.hash; size = 0 is a division by zero in Go *)
-Definition bl_hash (size : N) (key : bytes) (i : N) : N := fnv1a (key ++ le 8 i) mod size.
+(* BloomFilter.hash: FNV-1a of key ++ (i as 8 little-endian bytes), modulo the size; kh is the
+   FNV state after the key (fnv_from fnv_off key), computed once per key *)
+Definition bl_hash_from (size : N) (kh : N) (i : N) : N := fnv_from kh (le 8 i) mod size.
+Definition bl_hash (size : N) (key : bytes) (i : N) : N := bl_hash_from size (fnv1a key) i.
 
 (* NewBloomFilter(0.01, 1000): calculateOptimalSize/HashFuncs are floating point; their
    results for these arguments are 9586 bits and 7 functions (checked on every run: the
@@ -43,24 +48,24 @@ Definition test_bit (bits : bytes) (p : N) : bool :=
   if len bits <=? p / 8 then false
   else N.testbit (nth (N.to_nat (p / 8)) bits 0) (p mod 8).
 
-Fixpoint bl_add_loop (fuel : nat) (size : N) (key : bytes) (i : N) (bits : bytes) : bytes :=
+Fixpoint bl_add_loop (fuel : nat) (size : N) (kh : N) (i : N) (bits : bytes) : bytes :=
   match fuel with
   | O => bits
-  | S f => bl_add_loop f size key (i + 1) (set_bit bits (bl_hash size key i))
+  | S f => bl_add_loop f size kh (i + 1) (set_bit bits (bl_hash_from size kh i))
   end.
 Definition bl_add (b : bloom) (key : bytes) : bloom :=
   mkBl (bl_size b) (bl_k b) (bl_n b) (bl_ins b + 1)
-       (bl_add_loop (N.to_nat (bl_k b)) (bl_size b) key 0 (bl_bits b)).
+       (bl_add_loop (N.to_nat (bl_k b)) (bl_size b) (fnv1a key) 0 (bl_bits b)).
 
 (* Contains: for i < k, stop at the first unset bit (k <= 64 for every loaded filter) *)
-Fixpoint bl_contains_loop (fuel : nat) (b : bloom) (key : bytes) (i : N) : bool :=
+Fixpoint bl_contains_loop (fuel : nat) (b : bloom) (kh : N) (i : N) : bool :=
   match fuel with
   | O => true
   | S f => if bl_k b <=? i then true
-           else if test_bit (bl_bits b) (bl_hash (bl_size b) key i) then bl_contains_loop f b key (i + 1)
+           else if test_bit (bl_bits b) (bl_hash_from (bl_size b) kh i) then bl_contains_loop f b kh (i + 1)
            else false
   end.
-Definition bl_contains (b : bloom) (key : bytes) : bool := bl_contains_loop 65 b key 0.
+Definition bl_contains (b : bloom) (key : bytes) : bool := bl_contains_loop 65 b (fnv1a key) 0.
 
 (* SaveToFile *)
 Definition bl_bytes (b : bloom) : bytes :=
